@@ -21,4 +21,25 @@ CHECKS = {
         "budget_s": {"quick": 150, "thorough": 900},
         "assumptions": ["links are FIFO per sender->receiver pair (what the bundled TLS transport provides)"],
     },
+    "C02": {
+        "pkg": "checks/rbc", "env": {"VERIF_PROP": "C02"}, "level": "model_checking", "engine": "E2 explicit-state",
+        "technique": "explicit-state model checking: DFS with canonical-state deduplication over the real Scheme.HandleMessage/rbc.Receiver handlers, Byzantine actions bounded per history",
+        "level_text": "every reachable state of real receivers under any-order delivery and every sequence of at most k Byzantine actions from the stated alphabet satisfies agreement",
+        "level_note": "bounded: N in {3,4,5}, k Byzantine actions per history, payload alphabet {x,y}, rounds {1(,2)}; state identity = reflection dump of rbc.Receiver private state + in-flight multiset + hand-overs",
+        "budget_s": {"quick": 150, "thorough": 900},
+    },
+    "C03": {
+        "pkg": "checks/rbc", "env": {"VERIF_PROP": "C03"}, "level": "model_checking", "engine": "E2 explicit-state",
+        "technique": "explicit-state model checking: DFS with canonical-state deduplication over the real Scheme.HandleMessage/rbc.Receiver handlers, Byzantine actions bounded per history",
+        "level_text": "every transition of the same search satisfies integrity: authentic, participants only, at most once per (sender, round), never an empty placeholder, point-to-point as received",
+        "level_note": "same bounds as C02",
+        "budget_s": {"quick": 150, "thorough": 900},
+    },
+    "C04": {
+        "pkg": "checks/rbc", "env": {"VERIF_PROP": "C04"}, "level": "model_checking", "engine": "E2 explicit-state",
+        "technique": "explicit-state model checking: exhaustive search over all delivery interleavings of all-honest sessions on the real handlers with canonical-state deduplication",
+        "level_text": "all interleavings (any-order network, acknowledgements overtaking payloads, several senders and rounds in flight) for the stated session sizes; global exact search for small sizes, per-receiver exhaustive search (other parties eager) for larger ones",
+        "level_note": "per-receiver searches assume that what other honest parties emit does not depend on their own delivery order (validated by the global searches on the smaller sizes); N <= 5",
+        "budget_s": {"quick": 150, "thorough": 900},
+    },
 }
